@@ -266,7 +266,7 @@ func Explore(sc *Scenario, opt Options) *Stats {
 					altCost++
 				}
 				if opt.Bound < 0 || altCost <= opt.Bound {
-					for alt := len(p.Enabled) - 1; alt >= 1; alt-- {
+					for alt := p.N - 1; alt >= 1; alt-- {
 						np := make([]int, i+1)
 						copy(np, res.Choices[:i])
 						np[i] = alt
@@ -344,7 +344,7 @@ func Frontier(sc *Scenario, opt Options, want int) ([][]int, *Stats) {
 					altCost++
 				}
 				if opt.Bound < 0 || altCost <= opt.Bound {
-					for alt := 1; alt < len(pt.Enabled); alt++ {
+					for alt := 1; alt < pt.N; alt++ {
 						np := make([]int, i+1)
 						copy(np, res.Choices[:i])
 						np[i] = alt
@@ -421,7 +421,7 @@ func DeterminismCheck(sc *Scenario, opt Options, n int) error {
 						altCost++
 					}
 					if o.Bound < 0 || altCost <= o.Bound {
-						for alt := len(p.Enabled) - 1; alt >= 1; alt-- {
+						for alt := p.N - 1; alt >= 1; alt-- {
 							np := make([]int, i+1)
 							copy(np, res.Choices[:i])
 							np[i] = alt
